@@ -1681,7 +1681,7 @@ func TestVerifGovernance(t *testing.T) {
 		go func() {
 			defer wg.Done()
 			cmd := exec.Command(os.Args[0], "-test.run", "^TestVerifGovernance$", "-test.timeout", "3000s")
-			cmd.Env = append(os.Environ(), fmt.Sprintf("VERIF_SHARD=%d/%d", i, n), "VERIF_OUT="+kids[i].out, "VERIF_TRACE="+kids[i].trace)
+			cmd.Env = append(os.Environ(), fmt.Sprintf("VERIF_SHARD=%d/%d", i, n), "VERIF_OUT="+kids[i].out, "VERIF_TRACE="+kids[i].trace, "GOGC=400")
 			kids[i].log, kids[i].err = cmd.CombinedOutput()
 		}()
 	}
